@@ -3,7 +3,10 @@ package jph
 import (
 	"fmt"
 	"regexp"
+	"sort"
 	"strings"
+
+	"github.com/AsaiYusuke/jsonpath"
 )
 
 // B14 — case classes added after round 9 of the seeded changes (ids -t / -u / -v) for the changes the
@@ -133,4 +136,201 @@ func c02RegexVerdict(want string, cfgs []c02Cfg, outs []string) string {
 		return fmt.Sprintf("config %s: Go's regexp.Compile rejects the pattern the grammar delimits, Parse gives %s instead of ErrorInvalidArgument", cfgs[k].name, o)
 	}
 	return ""
+}
+
+// ---------- C17 class registry-history ----------
+//
+// One case in 50 (beyond the enumerated slice). Function names resolve against the Config of THIS call: a name N
+// (a registry name, or a fresh one — also one differing from a registry name only in case) is registered in a
+// Config `with`; a history of Parse calls follows: 1..3 calls under `with` (the path s itself, another path that
+// calls N, a path without functions, a path that fails before / after the call of N), then the probes — Parse(s)
+// without a Config, with an empty Config, with accessor mode only, with the registry lacking N — in random
+// order, then the reference Parse(s, with). Every function name in s is N, so the oracle needs no model:
+//   reference accepted            → every probe is ErrorFunctionNotFound naming `.N()` (the first action that can
+//                                   fail is the first call of N; everything before it is independent of the tables)
+//   reference is an error         → every probe gives that very error (same text) or ErrorFunctionNotFound naming
+//                                   `.N()` — also for a syntax error: the actions of the recognised prefix run before
+//                                   the action that reports it, so a call of N inside the prefix is reported first
+// Additionally the grammar executed in Lean is asked (it resolves names against the registry): the reference when
+// `with` is exactly the registry, the config-less probe when N is not a registry name.
+
+var c17HistFresh = []string{"b14fn", "Twice", "COUNT", "twice2", "tw", "-", "_", "0", "len", "idx", "Max", "list-all"}
+
+var c17HistTemplates = []string{
+	"$.a.%N()", "$.*.%N()", "$[?(@.a.%N() == 1)]", "$..a.%N()", "$.a.%N().%N()", "$[?(@.%N())]", "$[?($.a.%N() > @.b)]", "$.a[0].%N()",
+	"$['a'].%N()", "$[?(@.a.%N() && @.b.%N())]", "$.%N()", "$[?(@.b == $.a.%N())]", "$..[?(@.a.%N() != 'x')].b", "$[0,1].%N()", "$[1:3].%N()", "a.%N()",
+	// fail in the recogniser
+	"$.a.%N()]", "$.a.%N(", "$.a.%N()[", "$[?(@.a.%N() == )]", "$.a.%N().", "$.a.%N ()", "$.a.%N()x",
+	// fail in an action after the call of N / before it
+	"$[?(@.a.%N() =~ /(/)]", "$.a.%N()[?(@.b == 1e999)]", "$[?(@.b =~ /(/)].%N()", "$.a.%N()[(1)]", "$[(1)].%N()",
+}
+
+func c17Expect(f Parsed, out Outcome, tree string) (string, bool) {
+	switch {
+	case f != nil:
+		return "(q ok " + tree[1:], true
+	case out.ErrKind == "syntax":
+		if m := c17reSyntax.FindStringSubmatch(out.Msg); m != nil {
+			return "(q (syntax " + m[1] + " " + SexpString(m[2]) + " " + SexpString(m[3]) + "))", true
+		}
+	case out.ErrKind == "argument":
+		if arg, ok := c17Argument(out.Msg, ""); ok {
+			return "(q (argument " + SexpString(arg) + "))", true
+		}
+	case out.ErrKind == "notfound":
+		if m := c17reNotFound.FindStringSubmatch(out.Msg); m != nil {
+			return "(q (notfound " + SexpString(m[1]) + "))", true
+		}
+	case out.ErrKind == "notsupported":
+		if m := c17reNotSup.FindStringSubmatch(out.Msg); m != nil {
+			return "(q (notsupported " + SexpString(m[1]) + " " + SexpString(m[2]) + "))", true
+		}
+	}
+	return "", false
+}
+
+func c17HistoryCase(r *Rng) Record {
+	// the name and its kind
+	var name string
+	inRegistry := r.Chance(55)
+	isFilter := false
+	if inRegistry {
+		var names []string
+		for n := range filterImpl {
+			names = append(names, n)
+		}
+		for n := range aggImpl {
+			names = append(names, n)
+		}
+		sort.Strings(names)
+		name = r.Pick(names)
+		_, isFilter = filterImpl[name]
+	} else {
+		name = r.Pick(c17HistFresh)
+		isFilter = r.Chance(50)
+	}
+	fill := func(t string) string { return strings.ReplaceAll(t, "%N", name) }
+	ti := r.Intn(len(c17HistTemplates))
+	s := fill(c17HistTemplates[ti])
+	acc := r.Chance(25)
+	// the Config that has N
+	baseRegistry := inRegistry || r.Chance(50)
+	var with jsonpath.Config
+	if baseRegistry {
+		with = ConfigNoDecoys(acc)
+	} else if acc {
+		with.SetAccessorMode()
+	}
+	if !inRegistry {
+		if isFilter {
+			with.SetFilterFunction(name, fnID)
+		} else {
+			with.SetAggregateFunction(name, agCount)
+		}
+	}
+	withName := pick(baseRegistry, "the registry", "an empty Config").(string)
+	if !inRegistry {
+		withName += " + " + pick(isFilter, "filter", "aggregate").(string) + " function `" + name + "`"
+	}
+	rec := Record{Text: s, Tags: []string{"gen:registry-history", "class:registry-history", "registry-history:name=" + pick(inRegistry, "registry", "fresh").(string)},
+		Info: map[string]interface{}{"function": name, "with": withName}}
+	var hist []string
+	note := func(call string, f Parsed, o Outcome) {
+		hist = append(hist, call+" -> "+pick(f != nil, "function", clip(o.ErrKind+" "+o.Msg, 160)).(string))
+		rec.Info["history"] = hist
+	}
+	// 1. calls under `with`
+	firsts := []string{s, s, fill(r.Pick(c17HistTemplates[:16])), "$.a", "$[?(@.a == 1)]", fill("$.a.%N()["), fill("$.a.%N()[?(@.b =~ /(/)]"), fill("$.a.%N().nope()")}
+	for k, n := 0, r.Range(1, 3); k < n; k++ {
+		p1 := r.Pick(firsts)
+		f, o := SafeParse(p1, &with)
+		note(fmt.Sprintf("Parse(%q, with)", p1), f, o)
+	}
+	// 2. the probes
+	type probe struct {
+		what string
+		cfg  *jsonpath.Config
+	}
+	empty := jsonpath.Config{}
+	accOnly := jsonpath.Config{}
+	accOnly.SetAccessorMode()
+	lacking := jsonpath.Config{}
+	for n, f := range filterImpl {
+		if n != name {
+			lacking.SetFilterFunction(n, f)
+		}
+	}
+	for n, f := range aggImpl {
+		if n != name {
+			lacking.SetAggregateFunction(n, f)
+		}
+	}
+	probes := []probe{{"no Config", nil}, {"an empty Config", &empty}, {"a Config with accessor mode only", &accOnly}, {"the registry without `" + name + "`", &lacking}}
+	if r.Chance(60) {
+		r.Shuffle(len(probes), func(i, j int) { probes[i], probes[j] = probes[j], probes[i] })
+	}
+	if r.Chance(40) {
+		probes = append(probes, probe{"no Config", nil})
+	}
+	type probed struct {
+		what string
+		f    Parsed
+		o    Outcome
+	}
+	var got []probed
+	for _, p := range probes {
+		f, o := SafeParse(s, p.cfg)
+		note(fmt.Sprintf("Parse(%q, %s)", s, p.what), f, o)
+		got = append(got, probed{p.what, f, o})
+	}
+	// 3. the reference
+	ref, refOut, refTree := ParseTree(s, &with)
+	note(fmt.Sprintf("Parse(%q, with)", s), ref, refOut)
+	refKind := pick(ref != nil, "ok", refOut.ErrKind).(string)
+	rec.Tags = append(rec.Tags, "registry-history:reference="+refKind)
+	rec.Key = fmt.Sprintf("registry-history/%d/%s/%v", ti, refKind, inRegistry)
+	wantNF := "function not found (function=." + name + "())"
+	viol := func(format string, args ...interface{}) {
+		if rec.Viol == "" {
+			rec.Viol = fmt.Sprintf(format, args...) + fmt.Sprintf(" [path %q, function `%s` registered in `with` = %s; history: %s]", s, name, withName, strings.Join(hist, " ; "))
+			rec.Class = "registry-history"
+		}
+	}
+	if ref == nil && !c02IsParseErr(refOut.ErrKind) {
+		viol("the reference Parse under the Config that registers the function: %s", clip(refOut.Detail(), 300))
+		return rec
+	}
+	for _, g := range got {
+		isNF := g.f == nil && g.o.ErrKind == "notfound" && g.o.Msg == wantNF
+		switch {
+		case ref != nil:
+			if !isNF {
+				viol("Parse with %s must be ErrorFunctionNotFound `%s` (the Config of this call does not register the function), got %s", g.what, wantNF, pick(g.f != nil, "a function", clip(g.o.Detail(), 200)))
+			}
+		default:
+			if !isNF && (g.f != nil || g.o.ErrKind != refOut.ErrKind || g.o.Msg != refOut.Msg) {
+				viol("Parse with %s must give the error of the reference (%s) or ErrorFunctionNotFound `%s`, got %s", g.what, refOut.Msg, wantNF, pick(g.f != nil, "a function", clip(g.o.Detail(), 200)))
+			}
+		}
+	}
+	// the grammar executed in Lean, which knows the registry's names
+	accS := pick(acc, "t", "f").(string)
+	if inRegistry {
+		if exp, ok := c17Expect(ref, refOut, refTree); ok {
+			rec.Q = append(rec.Q, LeanQ{Driver: "peg", Line: "(q parse " + accS + " " + SexpString(s) + ")", Expect: exp,
+				What: "Parse under the registry at the end of a history vs the grammar executed in Lean (parseModel)", Oracle: true, Skip: "(q unmodelled)"})
+		}
+	} else {
+		for _, g := range got {
+			if g.what != "no Config" {
+				continue
+			}
+			if exp, ok := c17Expect(g.f, g.o, "()"); ok && g.f == nil {
+				rec.Q = append(rec.Q, LeanQ{Driver: "peg", Line: "(q parse f " + SexpString(s) + ")", Expect: exp,
+					What: "Parse without a Config after a Parse that registered `" + name + "` vs the grammar executed in Lean under the registry (which has no `" + name + "` either)", Oracle: true, Skip: "(q unmodelled)"})
+			}
+			break
+		}
+	}
+	return rec
 }
